@@ -6,6 +6,7 @@ From ZV.Common Require Import Base.
 From ZV.C07 Require Import Model ProofsArith ProofsLockFree ProofsProps ProofsBump ProofsFixedCap.
 From ZV.C07 Require Import ModelFive ProofsFiveArith ProofsFive ProofsFiveProps Cases.
 From ZV.C07 Require Import ModelTL ProofsTL ProofsTLProps.
+From ZV.C07 Require Import ModelTiered ProofsTiered ProofsTieredProps.
 Open Scope N_scope.
 
 (* any two live allocations occupy disjoint byte ranges - for every history and every arena size *)
@@ -378,3 +379,71 @@ Check threadlocal_arenas_retained :
   forall c ops ops' b r,
     In (b, r) (tl_live (tl_final c ops)) -> fst b < tl_n (tl_p (tl_final c (ops ++ ops'))).
 Print Assumptions threadlocal_arenas_retained.
+
+(* ------------------------------------------------------------------------------------------- *)
+(* TieredMemoryAllocator (ModelTiered.v)                                                       *)
+(* ------------------------------------------------------------------------------------------- *)
+(* TieredMemoryAllocator: for every configuration and every size, the pool deallocate chooses (from the size alone) is the
+   pool that served the allocation *)
+Theorem tiered_same_class_on_free :
+  forall c size,
+    match route_alloc c size with
+    | RSmall => free_pool RSmall size = Some 0%nat
+    | RMedium k => free_pool (RMedium k) size = Some (S k)
+    | _ => True
+    end.
+Proof. exact tiered_same_class_on_free_proof. Qed.
+Check tiered_same_class_on_free :
+  forall c size,
+    match route_alloc c size with
+    | RSmall => free_pool RSmall size = Some 0%nat
+    | RMedium k => free_pool (RMedium k) size = Some (S k)
+    | _ => True
+    end.
+Print Assumptions tiered_same_class_on_free.
+
+(* the tier a size is routed to holds it: small pool chunks for <= 1 KiB, otherwise the smallest medium class that is large enough *)
+Theorem tiered_route_fits :
+  forall c size,
+    match route_alloc c size with
+    | RSmall => 0 < size /\ size <= pool_chunk c 0 /\ t_small c = true
+    | RMedium k => 0 < size /\ (k < 5)%nat /\ size <= pool_chunk c (S k) /\ alloc_medium_index MEDIUM_CLASSES 0 size = Some k /\
+                   (forall k', (k' < k)%nat -> nth k' MEDIUM_CLASSES 0 < size)
+    | _ => True
+    end.
+Proof. exact route_alloc_fits. Qed.
+Check tiered_route_fits :
+  forall c size,
+    match route_alloc c size with
+    | RSmall => 0 < size /\ size <= pool_chunk c 0 /\ t_small c = true
+    | RMedium k => 0 < size /\ (k < 5)%nat /\ size <= pool_chunk c (S k) /\ alloc_medium_index MEDIUM_CLASSES 0 size = Some k /\
+                   (forall k', (k' < k)%nat -> nth k' MEDIUM_CLASSES 0 < size)
+    | _ => True
+    end.
+Print Assumptions tiered_route_fits.
+
+(* for every configuration and history of allocate / deallocate: a live pooled allocation holds a chunk created by a pool
+   whose chunk size is at least the request, and it will be freed into that same pool; distinct live allocations hold
+   distinct chunks; every pool's queue contains only chunks that pool created, none of them live *)
+Theorem tiered_inv :
+  forall c ops,
+    let s := t_final c ops in
+    (forall tag ch size, In (tag, ch, size) (tt_live s) -> pooled tag = true ->
+       0 < size /\ size <= pool_chunk c (fst ch) /\ free_pool tag size = Some (fst ch)) /\
+    (forall i j t1 c1 s1 t2 c2 s2, i <> j ->
+       nth_error (tt_live s) i = Some (t1, c1, s1) -> nth_error (tt_live s) j = Some (t2, c2, s2) ->
+       pooled t1 = true -> pooled t2 = true -> snd c1 <> snd c2) /\
+    (forall j ch, (j < 6)%nat -> In ch (mp_q (nth j (ts_pools (tt_p s)) (mkMP 0 []))) ->
+       fst ch = j /\ forall tag ch' size, In (tag, ch', size) (tt_live s) -> pooled tag = true -> snd ch' <> snd ch).
+Proof. exact tiered_inv_proof. Qed.
+Check tiered_inv :
+  forall c ops,
+    let s := t_final c ops in
+    (forall tag ch size, In (tag, ch, size) (tt_live s) -> pooled tag = true ->
+       0 < size /\ size <= pool_chunk c (fst ch) /\ free_pool tag size = Some (fst ch)) /\
+    (forall i j t1 c1 s1 t2 c2 s2, i <> j ->
+       nth_error (tt_live s) i = Some (t1, c1, s1) -> nth_error (tt_live s) j = Some (t2, c2, s2) ->
+       pooled t1 = true -> pooled t2 = true -> snd c1 <> snd c2) /\
+    (forall j ch, (j < 6)%nat -> In ch (mp_q (nth j (ts_pools (tt_p s)) (mkMP 0 []))) ->
+       fst ch = j /\ forall tag ch' size, In (tag, ch', size) (tt_live s) -> pooled tag = true -> snd ch' <> snd ch).
+Print Assumptions tiered_inv.
